@@ -1017,6 +1017,14 @@ impl super::DebugSession {
             }
             let pid_raw = i32::try_from(thread_id)
                 .map_err(|_| anyhow!("terminateThreads: threadId out of range"))?;
+            // only threads of the debuggee may be signalled (pid 0 is the adapter's own
+            // process group, any other id is a foreign process)
+            if !self.thread_cache.contains_key(&thread_id) {
+                return self.send_err(
+                    req,
+                    format!("terminateThreads: thread {thread_id} is not a thread of the debuggee"),
+                );
+            }
             let pid = Pid::from_raw(pid_raw);
             signal::kill(pid, Signal::SIGTERM)
                 .map_err(|err| anyhow!("terminateThreads: failed to signal {pid}: {err}"))?;
